@@ -4,6 +4,7 @@ package raft
 // the real state, and the record writer.
 
 import (
+	"strings"
 	"bytes"
 	"encoding/json"
 	"fmt"
@@ -122,6 +123,8 @@ func (c *simCluster) doStep(s simStep) (ev map[string]interface{}) {
 		ev = c.stepSnapTaken(s.N)
 	case "task":
 		ev = c.stepTask(s)
+	case "xferTimeout", "newTermTimeout":
+		ev = c.stepXferTimer(s.K, s.N)
 	case "fairCheck":
 		ev = c.stepFairCheck(s)
 	case "final":
@@ -450,6 +453,40 @@ func (c *simCluster) stepCrash(s simStep) map[string]interface{} {
 	return map[string]interface{}{"kind": "crash", "n": s.N}
 }
 
+// stateLoop `case <-l.transfer.timer.C` / `case <-l.transfer.newTermTimer.C`
+func (c *simCluster) stepXferTimer(kind string, id uint64) map[string]interface{} {
+	n := c.nodes[id]
+	if n == nil || !n.up {
+		return skipped("node down")
+	}
+	if n.cur != Leader || n.r.state != Leader {
+		return skipped("not leader")
+	}
+	t := n.l.transfer.timer
+	if kind == "newTermTimeout" {
+		t = n.l.transfer.newTermTimer
+	}
+	if !t.active || !n.l.transfer.inProgress() {
+		return skipped("timer inactive")
+	}
+	n.event(func() {
+		// the timer "fires": take its tick if it is already there, otherwise disarm it
+		if !t.timer.Stop() {
+			select {
+			case <-t.C:
+			default:
+			}
+		}
+		t.active = false
+		if kind == "newTermTimeout" {
+			n.l.onNewTermTimeout()
+		} else {
+			n.l.onTransferTimeout()
+		}
+	})
+	return map[string]interface{}{"kind": kind, "n": id}
+}
+
 // Raft.Shutdown: doClose(ErrServerClosed); stateLoop sees r.close and returns
 func (c *simCluster) stepShutdown(id uint64) map[string]interface{} {
 	n := c.nodes[id]
@@ -520,6 +557,9 @@ func (c *simCluster) stepTask(s simStep) map[string]interface{} {
 		t = TakeSnapshot(thr)
 		ev["threshold"] = thr
 	case "transfer":
+		if n.r.state != Leader || n.cur != Leader {
+			return skipped("not leader")
+		}
 		target := uint64(0)
 		if v, ok := s.Arg["target"].(float64); ok {
 			target = uint64(v)
@@ -662,6 +702,9 @@ func (c *simCluster) newlyDone() []interface{} {
 		m := map[string]interface{}{"task": st.id, "op": st.kind, "n": st.node, "val": st.val}
 		if err := st.t.Err(); err != nil {
 			m["err"] = errKind(err)
+			if st.kind == "changeConfig" && m["err"] == "other" {
+				m["err"] = "invalid" // request validation errors (fmt.Errorf texts)
+			}
 			m["errText"] = err.Error()
 		} else {
 			m["err"] = "ok"
@@ -708,6 +751,17 @@ func errKind(err error) string {
 		return "snapshotThreshold"
 	case ErrNoUpdates:
 		return "noUpdates"
+	case ErrTransferNoVoter:
+		return "noVoter"
+	case ErrTransferSelf:
+		return "transferSelf"
+	case ErrTransferTargetNonvoter:
+		return "targetNonvoter"
+	case ErrTransferInvalidTarget:
+		return "invalidTarget"
+	}
+	if strings.HasPrefix(err.Error(), "raft.transferLeadership: target rejected") {
+		return "targetRejected"
 	}
 	return "other"
 }
@@ -786,6 +840,8 @@ type pLdr struct {
 	Xfer      bool    `json:"xfer"`
 	XferTerm  uint64  `json:"xferTerm"`
 	XferTo    uint64  `json:"xferTo"`
+	XferResp  bool    `json:"xferResp"`
+	XferNt    bool    `json:"xferNt"`
 	ReplQ     int     `json:"replQ"`
 }
 
@@ -922,6 +978,7 @@ func (c *simCluster) project(n *simNode) pNodeState {
 		p.Ldr.Xfer = l.transfer.inProgress()
 		if p.Ldr.Xfer {
 			p.Ldr.XferTerm, p.Ldr.XferTo = l.transfer.term, l.transfer.target
+			p.Ldr.XferResp, p.Ldr.XferNt = l.transfer.respCh != nil, l.transfer.newTermTimer.active
 		}
 		if l.replUpdateCh != nil {
 			p.Ldr.ReplQ = len(l.replUpdateCh)
